@@ -445,6 +445,43 @@ fn shape(list: &[C]) -> String {
         .join("+")
 }
 
+/// coarse class of a list for signatures of violations that no single atom explains:
+/// which modifiers and logic operators occur, whether groups are nested, whether a
+/// condition that can stop on its own (distance) occurs. Bounded and small.
+fn coarse_shape(list: &[C]) -> String {
+    fn walk(list: &[C], mods: &mut BTreeSet<&'static str>, logic: &mut BTreeSet<&'static str>, nested: &mut bool, distance: &mut bool, top: bool) {
+        for (i, c) in list.iter().enumerate() {
+            match c.modifier {
+                M::None => {}
+                M::Not => {
+                    mods.insert("not");
+                }
+                M::Beyond => {
+                    mods.insert("beyond");
+                }
+                M::NotBeyond => {
+                    mods.insert("not_beyond");
+                }
+            }
+            if i > 0 || !top {
+                logic.insert(if c.logic == L::And { "and" } else { "or" });
+            }
+            match &c.atom {
+                A::Where(inner) => {
+                    *nested = true;
+                    walk(inner, mods, logic, nested, distance, false);
+                }
+                A::Distance(_) => *distance = true,
+                _ => {}
+            }
+        }
+    }
+    let (mut mods, mut logic, mut nested, mut distance) = (BTreeSet::new(), BTreeSet::new(), false, false);
+    walk(list, &mut mods, &mut logic, &mut nested, &mut distance, true);
+    let join = |s: &BTreeSet<&'static str>| if s.is_empty() { "none".to_string() } else { s.iter().copied().collect::<Vec<_>>().join("+") };
+    format!("modifiers={}|logic={}|nested={}|distance={}", join(&mods), join(&logic), nested, distance)
+}
+
 // ---------------------------------------------------------------------------
 // part "grid"
 
@@ -715,7 +752,7 @@ pub fn run(args: &Args) -> i32 {
                             flatten(list, &mut atoms);
                             match atoms.iter().find_map(|a| bad[gi].get(&format!("{a:?}"))) {
                                 Some(class) => format!("{class}|part=lists"),
-                                None => format!("part=lists|cause=combination:{}|search={}|clause={}", shape(list), f.walk.name(), f.clause),
+                                None => format!("part=lists|cause=combination|{}|clause={}", coarse_shape(list), f.clause),
                             }
                         };
                         let first = seen.insert(sig.clone());
